@@ -108,8 +108,8 @@ def request_menu(entries, mps, tier):
     types = sorted({t for t, _ in present})
     absent = []
     tmax = max(types)
-    for t in range(0, tmax + 1):
-        if t not in types: absent.append((t, 0)); break          # an empty type in between / below
+    empty = [t for t in range(0, tmax + 1) if t not in types]
+    absent += [(t, 0) for t in empty[:1] + [t for t in empty if t > types[0]][:1]]    # empty types below / in between
     absent += [(tmax + 1, 0), (0x42, 0), (0xFF, 0xFF)]
     for t in types[:3] + types[-1:]:
         idx = sorted(i for tt, i in present if tt == t)
@@ -453,7 +453,7 @@ class DeviceSpec(Spec):
         if stage == 1:
             acts.append(("in", 1))
             if lost: acts.append(("in", 0))
-        if stage == 2 or may_status:
+        if stage == 2 or may_status == 1:
             acts.append(("status",))
         if transfers:
             first = stage == 0 and transfers == self.cfg["transfers"]
@@ -487,7 +487,7 @@ class DeviceSpec(Spec):
                 raise Violation("dev:setup-not-acked", dict(request=(t, i, w), response=r))
             return (a[1], 0, 1, 1, lost, transfers - 1, 0)
         if a[0] == "status":
-            if may_status and stage == 1: self.cover["dev:status-after-lost-ack"] += 1
+            if may_status == 1 and stage == 1: self.cover["dev:status-after-lost-ack"] += 1
             host.send(cur, U.token(U.OUT, 0, 0), False)
             host.send(cur, U.data_packet(U.DATA1, ()), True)
             return (req, 0, 1, 0, lost, transfers, 0)
@@ -524,11 +524,11 @@ class DeviceSpec(Spec):
             if more: return (req, pos + self.mps, tog ^ 1, 1, lost, transfers, 0)
             return (req, pos, tog, 2, lost, transfers, 0)
         # ACK lost (or data lost on the way to the host): the device must repeat; a host that got the final packet may go to status
-        return (req, pos, tog, 1, lost - 1, transfers, 2 if more else 1)
+        return (req, pos, tog, 1, lost - 1, transfers, 2 if more else 1)     # 1: status stage allowed next, 2: not
 
     def canon(self, env):
         req, pos, tog, stage, lost, transfers, may_status = env
-        return (req, pos, tog, stage, lost, transfers, 1 if may_status else 0) if stage == 1 else (req if stage == 2 else -1, 0, 1, stage, lost, transfers, 0)
+        return env if stage == 1 else (-1, 0, 1, stage, lost, transfers, 0)
 
 
 def make(cfg, tier):
